@@ -208,7 +208,14 @@ def make_history(cfgs, sched):
         # crash during the write (C11), the state found by the next process
         # may be the previous or the new checkpoint
         extra["ckpt_allow_previous"] = True
-    return {"steps": [job_of(cfg, fault=fault), job_of(cfg, **extra)]}
+    first = {}
+    if sched.get("two_samplers"):
+        # two FlowSampler objects exist in the process (the other one was
+        # created first and has run to completion) when the signal arrives
+        # in the run under test
+        first["prelude"] = "interleaved"
+    return {"steps": [job_of(cfg, fault=fault, **first),
+                      job_of(cfg, **extra)]}
 
 
 def judge(ctx, cfgs, sched, reports, out):
@@ -217,6 +224,8 @@ def judge(ctx, cfgs, sched, reports, out):
     fname = func_name(sched["func"])
     classes = ["sampler:ins" if cfg["ins"] else "sampler:standard",
                "func:" + fname, "signal:%d" % sched["signum"]]
+    if sched.get("two_samplers"):
+        classes.append("two-samplers-created-up-front")
     first = reports[0]
     for r in reports:
         if r.get("status") == "exception" and r.get("exc_in_harness"):
@@ -252,7 +261,8 @@ def judge(ctx, cfgs, sched, reports, out):
         else:
             last = reports[-1]
             if last.get("status") != "completed":
-                add("resumed-run-did-not-complete" + where,
+                add("resumed-run-did-not-complete:%s@%s" % (
+                    last.get("exc_type"), last.get("exc_where")) + where,
                     f"{last.get('status')}: {last.get('exc_type')}@"
                     f"{last.get('exc_where')}: {last.get('exc_msg')}")
             # none lost: the run must continue from where the signal found
@@ -346,6 +356,8 @@ def run(ctx):
         chosen = schedules
     for i, s in enumerate(chosen):
         s["signum"] = sigs[i % 3]
+        if i % 6 == 4:
+            s["two_samplers"] = True
     out = Outcome()
     out.stats.extra["schedules_enumerated"] = len(schedules)
     out.stats.extra["exhaustive"] = (not ctx.quick)
